@@ -299,7 +299,9 @@ class Reporter:
                 continue
             _printed.add(fid)
             print("KNOWN-FINDING: property=%s %s [%s]" % (self.pid, what, fid))
-        for path, summary in self.violations:
+        for path, summary in self.violations[:40]:
             print("VIOLATION property=%s replay=%s %s" % (self.pid, path, summary))
+        if len(self.violations) > 40:
+            print("... and %d more violations of %s (replay files in %s)" % (len(self.violations) - 40, self.pid, outdir(self.pid)))
         sys.stdout.flush()
         return 1 if self.violations else 0
